@@ -253,12 +253,12 @@ func H18b2() {
 }
 
 func H18b2_twin() {
-	u, err := url.Parse("https://a:1/" + vString(1))
+	u, err := url.Parse("https://a:1/+" + hIDChars(1))
 	if err != nil {
 		return
 	}
 	id, err := URLToDID(*u)
-	if err == nil && len(id.ID) == 9 { // a%3A1:%XX
+	if err == nil && len(id.ID) == 10 { // a%3A1:%2Bx
 		vAssert(false, "H18b2_twin.reach: reachable")
 	}
 }
@@ -295,35 +295,50 @@ func H18b3() {
 }
 
 func H18b3_twin() {
-	u, err := url.Parse("https://a/" + vString(1))
+	c := vString(1)
+	vAssume(!hIsSpecial(c[0]) && c[0] != '%')
+	u, err := url.Parse("https://a/~" + c)
 	if err != nil {
 		return
 	}
-	if id, err := URLToDID(*u); err == nil && id.ID == "a:%7E" {
+	if id, err := URLToDID(*u); err == nil && id.ID == "a:%7Eb" {
 		vAssert(false, "H18b3_twin.reach: reachable")
 	}
+}
+
+// hCodecString: every byte string without '%' of n bytes: each byte is one of the 14 special characters (drawn
+// concretely, see hURLString) or a symbolic byte that is neither special nor '%'.
+func hCodecString(n int) (s string, special int, nonASCII bool) {
+	for i := 0; i < n; i++ {
+		if vBool() {
+			k := vChoice(len(hSpecials))
+			s += hSpecials[k : k+1]
+			special++
+		} else {
+			vTag("s")
+			c := vString(1)
+			vAssume(!hIsSpecial(c[0]) && c[0] != '%')
+			nonASCII = nonASCII || c[0] >= 0x80
+			s += c
+		}
+	}
+	return
 }
 
 // H18b4: the percent codec. For every byte string without '%': decoding the encoding gives the string back,
 // and the encoding is free of special characters and has the length the byte count implies.
 func H18b4() {
-	n := vLen(0, vParam("codec", 3))
-	vTag("s")
-	s := vString(n)
-	special, nonASCII := 0, false
-	for i := 0; i < n; i++ {
-		vAssume(s[i] != '%')
-		if hIsSpecial(s[i]) {
-			special++
-		}
-		nonASCII = nonASCII || s[i] >= 0x80
-	}
+	n := vLen(0, vParam("codec", 2))
+	s, special, nonASCII := hCodecString(n)
 	if nonASCII {
 		vClass("non-ASCII input")
 		vCover("non-ascii")
 	} else {
 		vClass("ASCII input")
 		vCover("ascii")
+	}
+	if special > 0 {
+		vCover("special")
 	}
 	e := percentEncodeString(s)
 	vAssert(len(e) == n+2*special, "H18b4.encoded_length: encoded length is not len(s) + 2 per special byte")
@@ -336,8 +351,8 @@ func H18b4() {
 }
 
 func H18b4_twin() {
-	s := vString(2)
-	if e := percentEncodeString(s); len(e) == 6 && percentDecodeString(e) == s {
+	s, special, _ := hCodecString(2)
+	if e := percentEncodeString(s); special == 2 && len(e) == 6 && percentDecodeString(e) == s {
 		vAssert(false, "H18b4_twin.reach: reachable")
 	}
 }
